@@ -340,6 +340,25 @@ var c05cells = []c05cell{
 			return []hlref.Field{fld(hlref.FData, subFields(fld(hlref.FData, hlref.Obfuscate([]byte("spare")))))}
 		},
 		func(x *c05ctx) bool { return !exists(x.w.UsersDir, "spare.yaml") }),
+	// batches: every entry of a batched update-user request is governed by the privilege of its own kind
+	{name: "update-user:batch-modify-then-create", effects: [][]int{{hlref.PrivModifyUser}, {hlref.PrivCreateUser}}, run: func(x *c05ctx) (*hlref.Tran, []bool) {
+		r := x.req.Request(hlref.TranUpdateUser,
+			fld(hlref.FData, subFields(fld(hlref.FData, hlref.Obfuscate([]byte("spare"))), fld(hlref.FUserLogin, hlref.Obfuscate([]byte("spare"))), sfld(hlref.FUserName, "ChangedName"), fld(hlref.FUserPassword, []byte{0}), fld(hlref.FUserAccess, zeroAccess))),
+			fld(hlref.FData, subFields(fld(hlref.FUserLogin, hlref.Obfuscate([]byte("nu3"))), sfld(hlref.FUserName, "Nu3"), fld(hlref.FUserPassword, hlref.Obfuscate([]byte("p"))), fld(hlref.FUserAccess, zeroAccess))))
+		return r, []bool{fileHas(filepath.Join(x.w.UsersDir, "spare.yaml"), "ChangedName"), exists(x.w.UsersDir, "nu3.yaml")}
+	}},
+	{name: "update-user:batch-rename-then-create", effects: [][]int{{hlref.PrivModifyUser}, {hlref.PrivCreateUser}}, run: func(x *c05ctx) (*hlref.Tran, []bool) {
+		r := x.req.Request(hlref.TranUpdateUser,
+			fld(hlref.FData, subFields(fld(hlref.FData, hlref.Obfuscate([]byte("spare"))), fld(hlref.FUserLogin, hlref.Obfuscate([]byte("spare3"))), sfld(hlref.FUserName, "Spare"), fld(hlref.FUserPassword, []byte{0}), fld(hlref.FUserAccess, zeroAccess))),
+			fld(hlref.FData, subFields(fld(hlref.FUserLogin, hlref.Obfuscate([]byte("nu4"))), sfld(hlref.FUserName, "Nu4"), fld(hlref.FUserPassword, hlref.Obfuscate([]byte("p"))), fld(hlref.FUserAccess, zeroAccess))))
+		return r, []bool{exists(x.w.UsersDir, "spare3.yaml"), exists(x.w.UsersDir, "nu4.yaml")}
+	}},
+	{name: "update-user:batch-create-then-delete", effects: [][]int{{hlref.PrivCreateUser}, {hlref.PrivDeleteUser}}, run: func(x *c05ctx) (*hlref.Tran, []bool) {
+		r := x.req.Request(hlref.TranUpdateUser,
+			fld(hlref.FData, subFields(fld(hlref.FUserLogin, hlref.Obfuscate([]byte("nu5"))), sfld(hlref.FUserName, "Nu5"), fld(hlref.FUserPassword, hlref.Obfuscate([]byte("p"))), fld(hlref.FUserAccess, zeroAccess))),
+			fld(hlref.FData, subFields(fld(hlref.FData, hlref.Obfuscate([]byte("spare"))))))
+		return r, []bool{exists(x.w.UsersDir, "nu5.yaml"), !exists(x.w.UsersDir, "spare.yaml")}
+	}},
 	{name: "broadcast", effects: [][]int{{hlref.PrivBroadcast}}, run: func(x *c05ctx) (*hlref.Tran, []bool) {
 		r := x.req.Request(hlref.TranUserBroadcast, sfld(hlref.FData, "attention"))
 		return r, []bool{hasType(x.admin.TakeInbox(), hlref.TranServerMsg)}
